@@ -45,7 +45,19 @@ notes={"C04-a":"C06 (after the `ch_outer_sni_changed` retry variant was added; C
  "C16-g":"C14 as it was; C16 after upstream failures with response codes outside 1..5 (6, 9, 16, 23) were added",
  "C17-g":"C17 (after the Dialer was also driven through Transport.RoundTrip and an empty non-nil ECH list stopped counting as a list)",
  "C18-g":"C18 (after the leak oracle was made prompt: no Dialer goroutine alive at the first instant at which Dial has returned and no attempt is outstanding)",
- "C19-g":"C19 (after explicit port 80 origins, alone and beside the same host's default-port origin, were generated)"}
+ "C19-g":"C19 (after explicit port 80 origins, alone and beside the same host's default-port origin, were generated)",
+ "C01-h":"C07 as it was (scribbled Write buffers); C01 after the backend-to-client relay got a reused buffer of 1..4096 bytes",
+ "C04-h":"C06 as it was (alert bytes compared after an ill-formed retry with a partial backend record pending); C04 itself only drives first hellos",
+ "C06-h":"C09 and C01 as they were; C06 after sibling keys under the same config id were added to the server's list",
+ "C07-h":"C07 (after the scripted transport could report its end error together with the last bytes, n>0 and err!=nil)",
+ "C08-h":"C08 (after the stall sweep let the stalled peer not read either, so that a write without deadline blocks)",
+ "C09-h":"C09 (after 'the target's key pair re-issued under another config' was added to the other keys)",
+ "C10-h":"C10 (after two earlier connections of the same process whose NewConn timed out were put in front of the case)",
+ "C12-h":"C12 (after the framing stage also served bodies without Content-Length: chunked and read-until-close, up to 6 MiB)",
+ "C14-h":"C14 (after fully qualified host spellings with a trailing dot were generated)",
+ "C16-h":"C16 (after the clock was allowed to advance while an upstream query is in flight; the reference cache advances at the same points)",
+ "C18-h":"C18 (after the per-attempt deadline was required to equal Timeout exactly, not merely to stay below it)",
+ "C20-h":"C20 (after `success:false` responses without any error detail were added to the failure kinds)"}
 rows=["| Seed | Breaks | Change (summary) | Needs to manifest | Caught by (quick tier) |","|---|---|---|---|---|"]
 for d in sorted(glob.glob('/verif/seeded/*/meta.json')):
     m=json.load(open(d)); sid=m['seed_id']
@@ -61,6 +73,6 @@ end=s.rindex("\n",0,end)+1
 s=s[:start]+"\n".join(rows)+"\n\n"+s[end:]
 import re
 s=re.sub(r"\w+ rounds of sub-agents produced \d+ distinct confirmed changes \(duplicates of an\nearlier idea were dropped\)\. \w+ of them were missed by the version of the\nchecks that existed when they arrived and led to the strengthenings named in\nthe last column; all \d+ are now reported by the quick tier at `VERIF_SEED=1`\.",
- f"Seven rounds of sub-agents produced {n} distinct confirmed changes (duplicates of an\nearlier idea were dropped). {len(notes)} of them were missed by the version of the\nchecks that existed when they arrived and led to the strengthenings named in\nthe last column; all {n} are now reported by the quick tier at `VERIF_SEED=1`.", s)
+ f"Eight rounds of sub-agents produced {n} distinct confirmed changes (duplicates of an\nearlier idea were dropped). {len(notes)} of them were missed by the version of the\nchecks that existed when they arrived and led to the strengthenings named in\nthe last column; all {n} are now reported by the quick tier at `VERIF_SEED=1`.", s)
 open('/verif/DESIGN.md','w').write(s)
 print(n, len(notes))
